@@ -7,6 +7,7 @@ pub struct BigInt {
     inner: u8,
 }
 
+#[derive(Debug)]
 pub enum BigIntError {
     ParseError,
 }
